@@ -15,6 +15,9 @@ Ops (one per line):
   mstatus marker=MR status=cancelled              (proposed|finalized|active|cancelled|destroyed)
   msend from=A outs=B:s1|s2,C:s3                  (bank MsgMultiSend, one input, signed by `from`)
   mtransfer admin=A from=B to=C id=s1             (marker MsgTransfer of a scope token)
+  ask seller=A asset=s1 price=5                   (exchange MsgCreateAsk: 1 unit of the scope token for 5 `$c`, signed by `seller`)
+  fill buyer=B order=1 price=5                    (exchange MsgFillAsks of one ask order, signed by `buyer`)
+  cancel signer=A order=1                         (exchange MsgCancelOrder)
   fund addr=A denom=$c amount=3                   (ordinary coins; `$c`, `$d`, `$nhash` are the non-scope denoms)
   bal addr=A denom=$c                             (bank balance, any denom; pure)
   denom s1                                        (scope denom round trip; pure)
@@ -46,7 +49,9 @@ def showObs (o : Obs) : String :=
   let gs := sortStrs (o.grants.map fun g => s!"{g.granter}>{g.grantee}:{g.mt.toString}:{g.count}")
   let ms := sortStrs (o.markers.map fun m =>
     s!"{m.addr}:{boolStr m.restricted}:{m.status.toString}:{joinOr (sortStrs (m.access.map fun (a, p) => s!"{a}.{p.toString}")) "+"}")
-  s!"{" ".intercalate (o.scopes.map showScopeObs)} grants={joinOr gs ","} markers={joinOr ms ","}"
+  let os := o.orders.map fun r => s!"{r.id}:{r.seller}:{r.asset}:{r.price}"
+  let hs := o.holds.map fun (a, d) => s!"{a}.{d}"
+  s!"{" ".intercalate (o.scopes.map showScopeObs)} grants={joinOr gs ","} markers={joinOr ms ","} orders={joinOr os ","} holds={joinOr hs ","}"
 
 /-! ### parsing the implementation's dump back into an `Obs` -/
 
@@ -91,12 +96,24 @@ private def parseMarker (s : String) : Option Marker :=
     pure ⟨a, r = "1", acc, st⟩
   | _ => none
 
+private def parseOrder (s : String) : Option Order :=
+  match s.splitOn ":" with
+  | [i, seller, asset, p] => do pure ⟨← parseNat? i, seller, asset, ← parseNat? p⟩
+  | _ => none
+
+private def parseHold (s : String) : Option (Addr × Denom) :=
+  match s.splitOn "." with
+  | [a, d] => some (a, d)
+  | _ => none
+
 def parseObs (line : String) : Option Obs := do
   let ws := words line
-  let scs ← (ws.filter fun w => !(w.startsWith "grants=" || w.startsWith "markers=")).mapM parseScopeObs
+  let scs ← (ws.filter fun w => !(w.startsWith "grants=" || w.startsWith "markers=" || w.startsWith "orders=" || w.startsWith "holds=")).mapM parseScopeObs
+  let os ← (splitList ((kv ws "orders").getD "-") ",").mapM parseOrder
+  let hs ← (splitList ((kv ws "holds").getD "-") ",").mapM parseHold
   let gs ← (splitList ((kv ws "grants").getD "-") ",").mapM parseGrant
   let ms ← (splitList ((kv ws "markers").getD "-") ",").mapM parseMarker
-  pure { scopes := scs, grants := gs, markers := ms }
+  pure { scopes := scs, grants := gs, markers := ms, orders := os, holds := hs }
 
 /-! ### ops -/
 
@@ -137,6 +154,12 @@ def parseOp (ws : List String) : Option Op :=
     pure (.msend (← kv rest "from") outs)
   | "mtransfer" :: rest => do
     pure (.mtransfer (← kv rest "admin") (← kv rest "from") (← kv rest "to") (← kv rest "id"))
+  | "ask" :: rest => do
+    pure (.ask (← kv rest "seller") (← kv rest "asset") (← (kv rest "price") >>= parseNat?))
+  | "fill" :: rest => do
+    pure (.fill (← kv rest "buyer") (← (kv rest "order") >>= parseNat?) (← (kv rest "price") >>= parseNat?))
+  | "cancel" :: rest => do
+    pure (.cancel (← kv rest "signer") (← (kv rest "order") >>= parseNat?))
   | "fund" :: rest => do
     pure (.fund (← kv rest "addr") (← kv rest "denom") (← (kv rest "amount") >>= parseNat?))
   | _ => none
@@ -146,6 +169,7 @@ def kindName : StepKind → String
   | .send => "send"
   | .mwithdraw => "mwithdraw"
   | .env => "env"
+  | .fill _ => "fill"
 
 structure DState where
   model : State := {}
